@@ -158,6 +158,14 @@ def ap_replay(args):
             elif op == 'caller_mutates':
                 caller_arr += 3.25                 # must not reach the aperture
                 caller_arr = caller_arr.copy()
+            elif op == 'used_with_mask':
+                ap_read(ap, 'area')                       # make sure the image exists
+                bad = np.zeros(_AP_IMG.shape, dtype=bool); bad[::2, ::2] = True
+                ap.area_overlap(_AP_IMG, mask=bad, method='exact')
+                ap.do_photometry(_AP_IMG, mask=bad, method='exact')
+                mk = ap.to_mask(method='exact')
+                for x in (mk if isinstance(mk, list) else [mk]):
+                    x.data[...] = 0.0                    # the caller's own copy of the weights
             elif op == 'iadd_pos':
                 p['shift'] += 1
                 ap.positions += AP_DELTA
